@@ -111,6 +111,29 @@ class SliceDatasetC(ClassContract):
         **flag_variants())
 
 
+def _split_refusal(variants, input_of):
+    """case split of `items-refused`: the input has no keys at all (keys() -> NotImplementedError: the stage must answer
+    with the ItemsNotDefined signal) versus keys that exist but are refused (duplicate keys of a concatenation:
+    AssertionError travels through -- listed finding F28)"""
+    import copy
+    out = []
+    for v in variants:
+        if v.name != 'items-refused':
+            out.append(v)
+            continue
+        req0 = v.requires
+        a = copy.copy(v)
+        a.requires = lambda S, req0=req0: z3.And(req0(S), smt.KEYS_UNIMPL(input_of(S)))
+        b = copy.copy(v)
+        b.name = 'items-refused,input-keys-exist-but-are-refused'
+        b.requires = lambda S, req0=req0: z3.And(req0(S), z3.Not(smt.KEYS_UNIMPL(input_of(S))))
+        out += [a, b]
+    return out
+
+
+SliceDatasetC.methods['__iter__'] = _split_refusal(SliceDatasetC.methods['__iter__'], lambda S: S.st.heap[S.eng.self_oid]['input_dataset'].t)
+
+
 # ------------------------------------------------------------ ConcatenateDataset
 class ConcatView(View):
     """N = PRE_N(m); OUT(i) = OUT(d_j, i - PRE_N(j)) for PRE_N(j) <= i < PRE_N(j+1);
